@@ -322,6 +322,30 @@ func c17Extra(rc *RunCtx) error {
 		maxLen = 4
 	}
 	pats := c17Patterns(maxLen)
+	if rc.Tier == "thorough" {
+		// the property's own alphabet {a b * ? . + ( | $}, complete up to length 5
+		seen := map[string]bool{}
+		for _, p := range pats {
+			seen[p] = true
+		}
+		small := []string{"a", "b", "*", "?", ".", "+", "(", "|", "$"}
+		prev := []string{""}
+		for l := 1; l <= 5; l++ {
+			var cur []string
+			for _, p := range prev {
+				for _, a := range small {
+					cur = append(cur, p+a)
+				}
+			}
+			for _, p := range cur {
+				if !seen[p] {
+					seen[p] = true
+					pats = append(pats, p)
+				}
+			}
+			prev = cur
+		}
+	}
 	inFile := filepath.Join(rc.St.Dir, "c17-patterns.txt")
 	var sb strings.Builder
 	for _, p := range pats {
@@ -538,7 +562,7 @@ func c17Extra(rc *RunCtx) error {
 	rc.Samples = append(rc.Samples, samples...)
 	rc.Validated += e2e
 	rc.Extra["c17"] = map[string]interface{}{
-		"patterns": len(pats), "pattern_alphabet": c17Alphabet, "max_pattern_len": maxLen, "key_len_bound": keyLen,
+		"patterns": len(pats), "pattern_alphabet": c17Alphabet, "max_pattern_len": maxLen, "second_alphabet": map[string]interface{}{"thorough_only": true, "symbols": "a b * ? . + ( | $", "max_pattern_len": 5}, "key_len_bound": keyLen,
 		"solver_queries": queries, "unsat": unsat, "sat": sat, "unknown": unknown, "solver_time_s": solverTime.Seconds(),
 		"end_to_end_patterns_on_example_store": e2e, "end_to_end_keys": len(keys),
 		"functions_encoded": []string{"redis/glob.Compile (regexpFromGlob)", "redis.nextScanArgument (MATCH)", "examples/go-redisd/server.(*Server).Keys", "examples/go-redisd/server.(*Server).Scan"},
